@@ -12,6 +12,7 @@ import (
 	"verif/engine/explore"
 	"verif/harness/core"
 	"verif/models/refcodec"
+	"verif/models/refmatch"
 )
 
 // ---- connect results -------------------------------------------------------
@@ -256,6 +257,10 @@ func runDispatch(ops []cop, hist []int, trace bool) (viol, key string, steps int
 							for i, xf := range x.Filters {
 								if xf == f {
 									x.Active[i] = false
+									// SUBACK received, completion still held back behind an older Subscribe:
+									// the library registers the filter when that completion comes, i.e. after
+									// this Unsubscribe has completed (listed finding KnownLate)
+									x.Late[i] = x.Acked && !due(x.Idx)
 								}
 							}
 						}
@@ -307,11 +312,23 @@ func runDispatch(ops []cop, hist []int, trace bool) (viol, key string, steps int
 			deliv := w.TakeDeliveries()
 			// per request and payload: how often was the callback invoked
 			gotN := map[string]int{}
+			topicOf := map[string]string{}
 			for idx, msgs := range deliv {
 				for _, m := range msgs {
 					pl := m[strings.Index(m, "=")+1 : strings.LastIndex(m, "@")]
 					gotN[fmt.Sprintf("%d|%s", idx, pl)]++
+					topicOf[pl] = m[:strings.Index(m, "=")]
 				}
+			}
+			// filters of a request the library registered late (see creq.Late) that match a topic
+			lateMatch := func(r *creq, topic string) int {
+				n := 0
+				for i, f := range r.Filters {
+					if r.Late[i] && r.Granted[i] && due(r.Idx) && refmatch.Matches(f, topic) {
+						n++
+					}
+				}
+				return n
 			}
 			for k, n := range gotN {
 				var idx int
@@ -323,6 +340,18 @@ func runDispatch(ops []cop, hist []int, trace bool) (viol, key string, steps int
 					if !r.Acked {
 						continue // before its SUBACK a request may or may not see messages
 					}
+					if lm := lateMatch(r, topicOf[pl]); lm > 0 && n <= lm {
+						if n > 1 && !overlapKnown {
+							vsched.Failf("overlap: after %s: the callback of request %d (%v) was invoked %d times for one message", o, idx, r.Filters, n)
+							return
+						}
+						if lateKnown {
+							lateHits++
+							continue
+						}
+						vsched.Failf("late-registration: after %s: the callback of request %d (%v) was invoked with payload %s on %q although the Unsubscribe for the matching filter has completed (it completed between this request's SUBACK and its completion)", o, idx, r.Filters, short(pl), topicOf[pl])
+						return
+					}
 					vsched.Failf("after %s: the callback of request %d (%v) was invoked with payload %s although no active filter of it matches a message handed on now", o, idx, r.Filters, short(pl))
 					return
 				}
@@ -330,6 +359,17 @@ func runDispatch(ops []cop, hist []int, trace bool) (viol, key string, steps int
 					wd.ex.delivered = true
 				}
 				if n > 1 {
+					lm := lateMatch(r, topicOf[pl])
+					if lm > 0 && n <= wd.nfilters+lm {
+						// registered twice for this topic, once of them late: both listed findings together
+						if overlapKnown && lateKnown {
+							overlapHits++
+							lateHits++
+							continue
+						}
+						vsched.Failf("late-registration: after %s: the callback of request %d (%v) was invoked %d times for one message on %q: once more through a filter whose Unsubscribe completed between this request's SUBACK and its completion", o, idx, r.Filters, n, topicOf[pl])
+						return
+					}
 					if wd.nfilters > 1 {
 						// one request, several of its filters match: the statement says once per message
 						if overlapKnown {
@@ -416,9 +456,15 @@ func runDispatch(ops []cop, hist []int, trace bool) (viol, key string, steps int
 // filters within one Subscribe request.
 const KnownOverlap = "C20 overlapping filters of one request: callback once per matching filter"
 
+// KnownLate is the fingerprint of the listed finding about an Unsubscribe that
+// completes between the SUBACK of a Subscribe and that Subscribe's completion.
+const KnownLate = "C20 Unsubscribe completing between a Subscribe's SUBACK and its completion: filter registered afterwards"
+
 var (
 	overlapKnown bool
 	overlapHits  int
+	lateKnown    bool
+	lateHits     int
 )
 
 func diffWire(got, want []*refcodec.Packet) string {
@@ -540,11 +586,39 @@ func C20(c *core.Ctx) {
 	ops := dispatchOps(c.Thorough())
 	overlapKnown = c.Known[KnownOverlap]
 	overlapHits = 0
+	lateKnown = c.Known[KnownLate]
+	lateHits = 0
 	defer func() {
 		if overlapHits > 0 {
 			c.Rep.KnownHits[KnownOverlap] += overlapHits
 		}
+		if lateHits > 0 {
+			c.Rep.KnownHits[KnownLate] += lateHits
+		}
 	}()
+	// the history of the listed finding KnownLate, in both tiers (the quick alphabet has no
+	// out-of-order SUBACK): Subscribe(a), Subscribe(a), Unsubscribe(a); SUBACK for the second,
+	// UNSUBACK, SUBACK for the first; a PUBLISH on a
+	if c.NShards <= 1 || c.Shard == 0 {
+		pin := []cop{{kind: "api:sub", filters: []string{"a"}, qoss: []byte{1}}, {kind: "api:unsub", filters: []string{"a"}},
+			{kind: "srv:suback-newest"}, {kind: "srv:unsuback"}, {kind: "srv:suback"}, {kind: "srv:pub", topic: "a", qos: 0, payload: "m0"}}
+		hist := []int{0, 0, 1, 2, 3, 4, 5}
+		v, _, steps := runDispatch(pin, hist, false)
+		c.Rep.Evaluations++
+		c.Rep.Executions++
+		c.Rep.States++
+		c.Rep.Transitions += int64(steps)
+		if v != "" {
+			key := "C20 pinned-late :: " + violClass(v)
+			if strings.HasPrefix(v, "late-registration:") {
+				key = KnownLate
+			}
+			in, _ := json.Marshal(hist)
+			if c.Violate(key, core.Replay{Scenario: "dispatch: Subscribe(a@1) ; Subscribe(a@1) ; Unsubscribe(a) ; SUBACK for the second ; UNSUBACK ; SUBACK for the first ; PUBLISH(a)", Message: v, Input: in}) {
+				return
+			}
+		}
+	}
 	d1, d2 := 6, 4
 	if c.Thorough() {
 		d1, d2 = 8, 5
@@ -576,6 +650,9 @@ func C20(c *core.Ctx) {
 			key := "C20 " + s.name + " :: " + violClass(st.Violation)
 			if strings.HasPrefix(st.Violation, "overlap:") {
 				key = KnownOverlap
+			}
+			if strings.HasPrefix(st.Violation, "late-registration:") {
+				key = KnownLate
 			}
 			if c.Violate(key, core.Replay{Scenario: s.name + ": " + explore.HistString(o, st.Hist), Message: st.Violation, Input: in}) {
 				return
